@@ -452,7 +452,15 @@ def snapshot(w, world, digests=False):
 
 
 def write_config(home, cfg):
-    """fselect's config.toml from the scenario's env.config (flat keys only)."""
+    """fselect's config.toml from the scenario's env.config (flat keys only).  {"own_default": true}: no file is written;
+    the binary is run once so that it writes its own complete default configuration, as it does for a new user."""
+    if (cfg or {}).get("own_default"):
+        d = os.path.join(home, ".config", "fselect")
+        shutil.rmtree(d, ignore_errors=True)
+        empty = os.path.join(home, "empty-dir-for-first-run")
+        os.makedirs(empty, exist_ok=True)
+        run_fselect(["select name from '%s' limit 1" % empty], empty, home)
+        return
     lines = []
     for k, v in (cfg or {}).items():
         if isinstance(v, bool):
